@@ -54,6 +54,10 @@ type scenario struct {
 	// burst: the receiver stalls (does not read, its socket buffer is tiny) while the sender writes Burst DATA
 	// frames of one byte each, all within the windows; then the receiver resumes and nothing else is sent.
 	Burst int `json:"burst,omitempty"`
+	// ConnUsed > 0: before the history starts the sender has already used ConnUsed bytes of the receiver's
+	// connection window with DATA on a third stream (5) that the receiver never credits back, so that the
+	// connection window, not the stream windows, is what blocks streams 1 and 3.
+	ConnUsed int `json:"connused,omitempty"`
 }
 
 type finding struct{ Sig, Desc string }
@@ -141,6 +145,11 @@ func run(sc scenario) (body func(), check func(r *vrt.Result) []finding) {
 			L.iws = sc.RootIWS
 		}
 		L.win[1], L.win[3] = L.iws, L.iws
+		streams := []uint32{1, 3}
+		if sc.ConnUsed > 0 {
+			streams = append(streams, 5)
+			L.win[5] = L.iws
+		}
 		dataSeen := 0 // receiver-side DATA events already processed
 		applyGrant := func(e ev) {
 			switch e.T {
@@ -220,18 +229,18 @@ func run(sc scenario) (body func(), check func(r *vrt.Result) []finding) {
 			if cred[0] != L.sentFlowConn {
 				add(sc.Dir+":I3:connection_credit_mismatch"+cls, "%s: sender has sent %d flow-controlled bytes but was returned %d bytes of connection credit", ctx, L.sentFlowConn, cred[0])
 			}
-			for _, s := range []uint32{1, 3} {
+			for _, s := range streams {
 				if cred[s] != L.sentFlow[s] {
 					add(sc.Dir+":I3:stream_credit_mismatch"+cls, "%s: sender has sent %d flow-controlled bytes on stream %d but was returned %d bytes of stream credit", ctx, L.sentFlow[s], s, cred[s])
 				}
 			}
 			for s, c := range cred {
-				if s != 0 && s != 1 && s != 3 && c != 0 {
+				if s != 0 && s != 1 && s != 3 && !(s == 5 && sc.ConnUsed > 0) && c != 0 {
 					add(sc.Dir+":I3:credit_for_unknown_stream", "%s: credit returned for stream %d which carried no DATA", ctx, s)
 				}
 			}
 			// I4 stranding (frame granularity: the relay's own chunks)
-			for _, s := range []uint32{1, 3} {
+			for _, s := range streams {
 				delivered := L.recvPay[s]
 				for _, c := range L.chunks[s] {
 					if delivered >= c && c > 0 {
@@ -257,6 +266,26 @@ func run(sc scenario) (body func(), check func(r *vrt.Result) []finding) {
 			stateKeys = append(stateKeys, fmt.Sprintf("w1=%d w3=%d wc=%d p1=%d p3=%d mfs=%d", L.win[1], L.win[3], L.winConn, L.sentPay[1]-L.recvPay[1], L.sentPay[3]-L.recvPay[3], L.mfs))
 		}
 		evalState("opening")
+		if sc.ConnUsed > 0 {
+			w.Client.Write(hw.Spec{T: "headers", Stream: 5, Fields: [][2]string{{":method", "POST"}, {":path", "/c"}, {":scheme", "https"}, {":authority", "o"}}})
+			vrt.WaitQuiescent()
+			if sc.Dir == "s2c" {
+				w.Server.Write(hw.Spec{T: "headers", Stream: 5, Fields: [][2]string{{":status", "200"}}})
+				vrt.WaitQuiescent()
+			}
+			for left := sc.ConnUsed; left > 0; {
+				n := left
+				if n > 16384 {
+					n = 16384
+				}
+				e := ev{Who: "snd", T: "data", Stream: 5, N: n}
+				applySend(e)
+				snd.Write(spec(e))
+				left -= n
+			}
+			vrt.WaitQuiescent()
+			evalState(fmt.Sprintf("after %d bytes on stream 5 used up the connection window", sc.ConnUsed))
+		}
 		if sc.Burst > 0 {
 			// the receiver's reader was gated from the start: the opening frames toward it are still queued, which is
 			// part of the stall. The sender now bursts; then the receiver resumes; at quiescence everything that the
@@ -272,6 +301,20 @@ func run(sc scenario) (body func(), check func(r *vrt.Result) []finding) {
 			evalState(fmt.Sprintf("after a burst of %d one-byte DATA frames toward a stalled receiver that then resumed", sc.Burst))
 		} else if !sc.Conc {
 			for i, e := range sc.Hist {
+				if e.T == "mfs" && e.N < L.mfs {
+					// lowering MAX_FRAME_SIZE is judged only when nothing accepted earlier is still queued in the
+					// relay (frames already cut at the old size are the receiver's own race with its SETTINGS)
+					pending := false
+					for _, s := range streams {
+						if L.sentPay[s] != L.recvPay[s] {
+							pending = true
+						}
+					}
+					if pending {
+						vrt.Log("history cut at event %d: MAX_FRAME_SIZE lowered with data still queued", i+1)
+						break
+					}
+				}
 				if e.Who == "snd" {
 					applySend(e)
 					snd.Write(spec(e))
@@ -364,7 +407,7 @@ func alphabet(tier string, reduced bool) []ev {
 	)
 }
 
-// legal prunes histories the statement does not cover: data after END_STREAM, lowering MAX_FRAME_SIZE.
+// legal prunes histories the statement does not cover (data after END_STREAM) and no-op SETTINGS.
 func legal(h []ev) bool {
 	ended := map[uint32]bool{}
 	mfs := 16384
@@ -378,8 +421,8 @@ func legal(h []ev) bool {
 			}
 		}
 		if e.T == "mfs" {
-			if e.N < mfs {
-				return false
+			if e.N == mfs {
+				return false // announcing the value already in force: same state
 			}
 			mfs = e.N
 		}
@@ -423,6 +466,56 @@ func scenarios(tier string) []scenario {
 		gen("s2c", 4, red, 4)
 		gen("c2s", 0, red, 5)
 		gen("s2c", 0, red, 5)
+	}
+	// the connection window (not the stream windows) is what blocks: 65531 or 65535 of its 65535 bytes are used up
+	// by a third stream before the history starts
+	genUsed := func(dir string, used int, alpha []ev, depth int) {
+		lib.Sequences(len(alpha), depth, func(seq []int) {
+			if len(seq) != depth {
+				return
+			}
+			h := make([]ev, len(seq))
+			for i, x := range seq {
+				h[i] = alpha[x]
+			}
+			if !legal(h) {
+				return
+			}
+			out = append(out, scenario{Dir: dir, RootIWS: -1, Hist: h, ConnUsed: used})
+		})
+	}
+	connAlpha := []ev{
+		{Who: "snd", T: "data", Stream: 1, N: 1},
+		{Who: "snd", T: "data", Stream: 1, N: 5},
+		{Who: "snd", T: "data", Stream: 3, N: 5},
+		{Who: "snd", T: "data", Stream: 3, N: 0, Pad: 4},
+		{Who: "rcv", T: "wu", Stream: 0, N: 1},
+		{Who: "rcv", T: "wu", Stream: 0, N: 5},
+		{Who: "rcv", T: "wu", Stream: 0, N: 9},
+		{Who: "rcv", T: "wu", Stream: 1, N: 5},
+		{Who: "rcv", T: "iws", N: 65540},
+	}
+	// SETTINGS_MAX_FRAME_SIZE histories (raised, lowered again, back to the default) around payloads larger than a frame
+	mfsAlpha := []ev{
+		{Who: "rcv", T: "mfs", N: 16384},
+		{Who: "rcv", T: "mfs", N: 16385},
+		{Who: "rcv", T: "mfs", N: 32768},
+		{Who: "rcv", T: "mfs", N: 16777215},
+		{Who: "snd", T: "data", Stream: 1, N: 16385},
+		{Who: "snd", T: "data", Stream: 3, N: 40000},
+		{Who: "rcv", T: "wu", Stream: 0, N: 100000},
+	}
+	if tier == "quick" {
+		genUsed("c2s", 65531, connAlpha, 3)
+		genUsed("s2c", 65535, connAlpha, 3)
+		gen("c2s", -1, mfsAlpha, 3)
+		gen("s2c", -1, mfsAlpha, 3)
+	} else {
+		for _, dir := range []string{"c2s", "s2c"} {
+			genUsed(dir, 65531, connAlpha, 4)
+			genUsed(dir, 65535, connAlpha, 4)
+			gen(dir, -1, mfsAlpha, 4)
+		}
 	}
 	// bursts toward a stalled receiver (more frames than the relay's internal queue holds)
 	for _, dir := range []string{"c2s", "s2c"} {
@@ -587,8 +680,8 @@ func main() {
 	rep.Coverage["transitions"] = rep.Counter("history_events") + rep.Counter("concurrent_executions")
 	rep.Coverage["traces_validated_against_impl"] = rep.Counter("executions")
 	rep.Coverage["exhaustive"] = rep.Incomplete == ""
-	rep.Coverage["bounds"] = fmt.Sprintf("%d scenarios: all event histories (21-event alphabet to depth 3 (quick) / 4 (thorough), 12-event alphabet to depth 4 / 5) from receiver initial windows {0,4,default}, both directions, each event followed by run-to-quiescence and invariants I1-I4 evaluated in every state; plus 24 concurrent DATA/WINDOW_UPDATE script pairs under schedule exploration", len(scen))
+	rep.Coverage["bounds"] = fmt.Sprintf("%d scenarios: all event histories (21-event alphabet to depth 3 (quick) / 4 (thorough), 12-event alphabet to depth 4 / 5) from receiver initial windows {0,4,default}, both directions, each event followed by run-to-quiescence and invariants I1-I4 evaluated in every state; plus histories over a connection-window alphabet after a third stream used up 65531 / 65535 bytes of the connection window, MAX_FRAME_SIZE histories (raise, lower, back to default) with payloads above a frame; plus 24 concurrent DATA/WINDOW_UPDATE script pairs under schedule exploration", len(scen))
 	rep.Coverage["explanation"] = "states = distinct ledger states (windows, pending bytes, max frame size) summed over shards; every history is replayed on a fresh real relay (no deduplication)"
-	rep.Assumptions = []string{"2 streams; sizes and increments from the alphabet", "MAX_FRAME_SIZE only raised within a history", "I4 at the granularity of the relay's own frames (no obligation to split a frame to fit a smaller window)"}
+	rep.Assumptions = []string{"2 streams; sizes and increments from the alphabet", "a lowering of MAX_FRAME_SIZE is judged only when no accepted DATA is still queued in the relay (otherwise the history is cut there)", "I4 at the granularity of the relay's own frames (no obligation to split a frame to fit a smaller window)"}
 	rep.Finish()
 }
